@@ -13,7 +13,7 @@ CONSTANTS Depth, Emit, Dev, NestMode
 
 VARIABLES lay, done, src
 
-Elements == { El("plain", 0), El("lcomment", 0), El("define", 0), El("bcomment", 1), El("bcomment", 3),
+Elements == { El("plain", 0), El("lcomment", 0), El("define", 0), El("bcomment", 1), El("bcommentblank", 1),     \* (a 3-line comment without empty line: Pre and the random layouts)
               El("definecont", 1), El("definecont", 2), El("textcont", 1), El("inactive", 2), El("active", 1),
               El("undef", 0), El("undefmissing", 0), El("else", 1), El("inactivestr", 0),
               Inc(<<El("plain", 0)>>), Inc(<<El("definecont", 1), El("plain", 0)>>),
@@ -22,7 +22,8 @@ Pre == { <<>>, <<El("definecont", 1)>>, <<El("bcomment", 3), El("lcomment", 0)>>
 NestsAll == { <<>> } \cup { <<p>> : p \in Pre } \cup { <<p[1], p[2]>> : p \in Pre \X Pre }
 NestsFew == { <<>> } \cup { <<p>> : p \in Pre } \cup { << <<>>, <<El("definecont", 1)>> >>, << <<El("definecont", 1)>>, <<El("bcomment", 3), El("lcomment", 0)>> >> }
 Nests == IF NestMode = "few" THEN NestsFew ELSE NestsAll
-Faults == { [kind |-> k, pad |-> p, pre |-> 0] : k \in {"parse", "runtime", "linemacro"}, p \in {0, 3} }
+Faults == { [kind |-> k, pad |-> p, pre |-> 0] : k \in {"parse", "runtime"}, p \in {0, 3} }
+          \cup { [kind |-> "linemacro", pad |-> 0, pre |-> 0], [kind |-> "linemacroeol", pad |-> 3, pre |-> 0] }
           \cup { [kind |-> k, pad |-> 0, pre |-> 1] : k \in {"parse", "runtime"} }
 NoSrc == [lay |-> <<>>, crlf |-> FALSE, nest |-> <<>>, fault |-> [kind |-> "none", pad |-> 0, pre |-> 0]]
 
